@@ -3,9 +3,13 @@
   _wait_ready, _add_queued, _dequeue, _retry_later, _remove_stored, flush, enqueue's hand-off,
   _load_all / _wait_store) as a labelled transition system over virtual time. One label per
   atomic section of the code: the code between two points where a greenlet can yield, for a
-  storage whose calls do not yield inside a section and pools whose `spawn` does not block
-  (a pending task stands for "spawned, not yet run", including the time a `_dequeue` task spends
-  in `store.get`).
+  storage whose calls do not yield inside a section. Pools may be bounded: a `spawn` that blocks on
+  a full pool is a task that is pending for longer (a pending task stands for "spawn called, not yet
+  run", including the time the spawn waits for a slot and the time a `_dequeue` task spends in
+  `store.get`); the one place where a blocking spawn splits an atomic section that matters is the
+  scheduler loop, whose turn is therefore two labels: `sched` (wake up, `_check_ready`: cut the due
+  entries, spawn their `_dequeue` tasks) and `sleep` (`_wait_ready`, with the clock read again) —
+  everything else may happen in between.
 -/
 namespace Slimta.Sched
 
@@ -26,6 +30,7 @@ structure State where
                                         -- (set_timestamp / set_recipients_delivered of a yielding storage are in between)
   rem : List Nat := []                  -- _remove_stored is due
   asleep : Option (Option Nat) := none  -- scheduler loop: none = runnable, some t = in wake.wait(t - now)
+  turn : Bool := false                  -- the loop is between `_check_ready` and `_wait_ready` (its spawns may be waiting for a pool slot)
   wake : Bool := false                  -- the wake Event's flag
   poked : Bool := false                 -- flush(): wake.set(); wake.clear() — wakes a waiting scheduler, leaves the flag down
   known : List Nat := []                -- ids this queue has been told about (enqueue / load / wait)
@@ -37,15 +42,16 @@ inductive Label
   | activate (id : Nat)               -- enqueue: the id is marked active and its first attempt spawned
   | announce (id : Nat) (ts : Nat)    -- load() / wait() yields (ts, id): _add_queued
   | tick (dt : Nat)                   -- time passes
-  | sched                             -- one turn of the scheduler loop: (wake up,) _check_ready, _wait_ready
-  | spurious                          -- a turn of the loop nobody asked for (e.g. resumed after a spawn on a full pool)
+  | sched                             -- the scheduler loop (wakes up and) runs _check_ready: due entries become _dequeue tasks
+  | sleep                             -- the loop reaches _wait_ready: sleeps until the first remaining timestamp, for ever, or not at all
   | dequeue (id : Nat) (c : Cause)    -- a pending _dequeue task gets its store.get answer and goes on
   | done (id : Nat) (ok : Bool)       -- the relay returns: ok = the message leaves the queue; else transient failure
   | retry (id : Nat) (w : Option Nat) -- _retry_later up to store.set_timestamp: `none` = the backoff function gave up; `some t` = the due time it
                                       -- chose (time of the call + its answer), now in storage
   | requeue (id : Nat)                -- the end of _retry_later: active_ids.discard, _add_queued((when, id))
   | remove (id : Nat)                 -- _remove_stored
-  | flush
+  | poke                              -- flush() begins: wake.set(); wake.clear() — a waiting scheduler loop is woken, the flag ends down
+  | flush                             -- flush() has the lock: it takes every entry out of the timetable (their _dequeue tasks follow)
 deriving Repr, DecidableEq
 
 /-- bisect.insort (insort_right) on tuples -/
@@ -75,14 +81,21 @@ def schedEnabled (s : State) : Bool :=
   | some none => s.wake || s.poked
   | some (some t) => s.wake || s.poked || t ≤ s.now
 
-/-- `_check_ready(now)` then `_wait_ready(now)`: everything due leaves the timetable for a `_dequeue`
-    task each, then the loop sleeps until the first remaining timestamp (or for ever). -/
-def schedTurn (s : State) : State :=
+/-- Waking up (`wake.clear()` if the loop was waiting) and `_check_ready(now)`: everything due leaves
+    the timetable for a `_dequeue` task each. -/
+def schedCut (s : State) : State :=
   let due := s.queued.takeWhile (fun e => e.1 ≤ s.now)
   let rest := s.queued.dropWhile (fun e => e.1 ≤ s.now)
   let s1 := if due.isEmpty then s
     else { s with queued := rest, queuedIds := rest.map (·.2), deq := s.deq ++ due.map (fun e => (e.2, Cause.sched)) }
-  { s1 with asleep := some (rest.head?.map (·.1)), wake := false, poked := false }
+  { s1 with asleep := none, turn := true, wake := if s.asleep.isSome then false else s.wake, poked := false }
+
+/-- `_wait_ready(time.time())`: nothing queued: wait for the wake event; first entry in the future: wait
+    until then; first entry due (it arrived while the spawns were waiting): go round again at once. -/
+def schedSleep (s : State) : State :=
+  match s.queued.head? with
+  | none => { s with asleep := some none, turn := false }
+  | some e => if s.now < e.1 then { s with asleep := some (some e.1), turn := false } else { s with asleep := none, turn := false }
 
 def step (s : State) : Label → Option State
   | .write id ts =>
@@ -100,8 +113,8 @@ def step (s : State) : Label → Option State
       some (addQueued { s with known := if s.known.contains id then s.known else id :: s.known } ts id)
     else none
   | .tick dt => some { s with now := s.now + dt }
-  | .sched => if schedEnabled s then some (schedTurn s) else none
-  | .spurious => some (schedTurn s)
+  | .sched => if !s.turn && schedEnabled s then some (schedCut s) else none
+  | .sleep => if s.turn then some (schedSleep s) else none
   | .dequeue id c =>
     if s.deq.contains (id, c) then
       let s1 := { s with deq := s.deq.erase (id, c) }
@@ -134,9 +147,9 @@ def step (s : State) : Label → Option State
       some { s with rem := without s.rem id, stored := s.stored.filter (·.1 != id),
                     queuedIds := without s.queuedIds id, active := without s.active id }
     else none
+  | .poke => some { s with wake := false, poked := s.poked || s.asleep.isSome }
   | .flush =>
-    some { s with deq := s.deq ++ s.queued.map (fun e => (e.2, Cause.flush)), queued := [], queuedIds := [],
-                  poked := s.asleep.isSome }
+    some { s with deq := s.deq ++ s.queued.map (fun e => (e.2, Cause.flush)), queued := [], queuedIds := [] }
 
 def run (s : State) : List Label → Option State
   | [] => some s
